@@ -106,6 +106,9 @@ def run_impl(case):
 
 
 def coq_case(case, obs):
+    # C11 does not talk about the array's data type: that observation belongs to C12 / C02
+    if isinstance(obs, dict) and 'ops' in obs:
+        obs = dict(obs, ops=[dict(o, dtype=None) for o in obs['ops']])
     return L.coq_case(case, obs)
 
 
